@@ -1,9 +1,10 @@
 (* driver.ml — line protocol for the EML parser model (engine eml: C09, C10).
    input  : <id> <kind> <args...>      output : <id> <observable>
-   kind eml : <rawhex> <failoff> <msg_ok> <addr_ok> <date_ok> <entity...>
+   kind eml : <rawhex> <failoff> <top>
      entity := E <nfields> (<key> <value>)* <mt> <bits> <nparts> <end_ok> entity*
      mt     := N | X | M <mediatype> <charset|-> <has_boundary>
-     bits   := four 0/1 characters: read_ok qp_ok b64s_ok b64d_ok
+     bits   := <read_ok 0/1> <raw body hex> <qp> <b64 stream> <b64 DecodeString>  (decoder results: hex, "=" same as raw, "!" error)
+     top    := <msg_ok> <from> <to> <cc> <bcc> <date> entity     (address fields: "-" absent, "!" error, "a"hex,hex… ; date: "-", "!", "d"hex)
    (rawhex / failoff are what the implementation side parses; the model works on the tree of
    stdlib results that the harness computed for the same input) *)
 open Util
@@ -46,10 +47,14 @@ let rec read_entity (r : string list ref) : M.entity =
         let hb = b01 (next r) in
         M.MTOk (m, cs, hb)
     | x -> raise (Bad ("mt " ^ x)) in
-  let bs = next r in
-  if String.length bs <> 4 then raise (Bad "bits");
-  let bit i = bs.[i] = '1' in
-  let b = { M.read_ok = bit 0; M.qp_ok = bit 1; M.b64s_ok = bit 2; M.b64d_ok = bit 3 } in
+  let rd = b01 (next r) in
+  let rawh = next r in
+  let rawb = bytes_of_hex rawh in
+  let dec () = (match next r with "!" -> None | "=" -> Some rawb | x -> Some (bytes_of_hex x)) in
+  let q = dec () in
+  let s64 = dec () in
+  let d64 = dec () in
+  let b = { M.read_ok = rd; M.raw = rawb; M.qp_dec = q; M.b64s_dec = s64; M.b64d_dec = d64 } in
   let np = int_of_string (next r) in
   let end_ok = b01 (next r) in
   let rec parts k = if k = 0 then [] else
@@ -60,15 +65,38 @@ let rec read_entity (r : string list ref) : M.entity =
 let join_or_dash l = if l = [] then "-" else String.concat "," l
 
 let show_state (st : M.mstate) : string =
-  let part (p : M.pobs) = hex_of_bytes p.M.p_ct ^ ":" ^ hex_of_bytes p.M.p_cs ^ ":" ^ hex_of_bytes p.M.p_enc in
-  let file (f : M.fobs) = hex_of_bytes f.M.fo_name ^ ":" ^ hex_of_bytes f.M.fo_cid in
+  let part (p : M.pobs) = hex_of_bytes p.M.p_ct ^ ":" ^ hex_of_bytes p.M.p_cs ^ ":" ^ hex_of_bytes p.M.p_enc ^ ":" ^ hex_of_bytes p.M.p_content in
+  let file (f : M.fobs) = hex_of_bytes f.M.fo_name ^ ":" ^ hex_of_bytes f.M.fo_cid ^ ":" ^ hex_of_bytes f.M.fo_bytes in
   let gen = List.sort compare (List.map (fun (k, _) -> hex_of_bytes k) st.M.m_gen) in
-  Printf.sprintf "ok cs=%s enc=%s parts=%s att=%s emb=%s gen=%s"
+  let al l = join_or_dash (List.map hex_of_bytes l) in
+  let a = st.M.m_addrs in
+  Printf.sprintf "ok cs=%s enc=%s parts=%s att=%s emb=%s gen=%s from=%s to=%s cc=%s bcc=%s"
     (hex_of_bytes st.M.m_charset) (hex_of_bytes st.M.m_enc)
     (join_or_dash (List.map part st.M.m_parts))
     (join_or_dash (List.map file st.M.m_atts))
     (join_or_dash (List.map file st.M.m_embs))
-    (join_or_dash gen)
+    (join_or_dash gen) (al a.M.a_from) (al a.M.a_to) (al a.M.a_cc) (al a.M.a_bcc)
+
+(* generic header values that C10 looks at (Subject, Date): raw value handed to SetGenHeader *)
+let show_gen_values (st : M.mstate) : string =
+  let get k = (match List.find_opt (fun (k', _) -> hex_of_bytes k' = k) st.M.m_gen with
+               | Some (_, v) -> hex_of_bytes v | None -> "-") in
+  Printf.sprintf "subj=%s date=%s" (get "5375626a656374") (get "44617465")
+
+let read_ares (s : string) : M.ares =
+  if s = "-" then M.ANone else if s = "!" then M.AErr
+  else M.AOk (if s = "a" then [] else List.map bytes_of_hex (split_on ',' (String.sub s 1 (String.length s - 1))))
+let read_dres (s : string) : M.dres =
+  if s = "-" then M.DNone else if s = "!" then M.DErr else M.DOk (bytes_of_hex (String.sub s 1 (String.length s - 1)))
+
+(* <msg_ok> <from> <to> <cc> <bcc> <date> <entity…> *)
+let read_top (r : string list ref) : M.top =
+  let msg_ok = b01 (next r) in
+  let f = read_ares (next r) in let t = read_ares (next r) in
+  let c = read_ares (next r) in let b = read_ares (next r) in
+  let d = read_dres (next r) in
+  let e = read_entity r in
+  { M.t_msg_ok = msg_ok; M.t_from = f; M.t_to = t; M.t_cc = c; M.t_bcc = b; M.t_date = d; M.t_ent = e }
 
 let show_outcome (o : M.mstate M.outcome) : string =
   match o with
@@ -78,28 +106,31 @@ let show_outcome (o : M.mstate M.outcome) : string =
 
 let run (toks : string list) : string =
   match toks with
-  | "eml" :: _raw :: _off :: msg_ok :: addr_ok :: date_ok :: rest ->
-      let r = ref rest in
-      let e = read_entity r in
-      let t = { M.t_msg_ok = b01 msg_ok; M.t_addr_ok = b01 addr_ok; M.t_date_ok = b01 date_ok; M.t_ent = e } in
-      show_outcome (M.parse_eml_fixed t)
-  | "emlold" :: _raw :: _off :: msg_ok :: addr_ok :: date_ok :: rest ->
-      let r = ref rest in
-      let e = read_entity r in
-      let t = { M.t_msg_ok = b01 msg_ok; M.t_addr_ok = b01 addr_ok; M.t_date_ok = b01 date_ok; M.t_ent = e } in
-      show_outcome (M.parse_eml_old t)
+  | "eml" :: _raw :: _off :: rest ->
+      show_outcome (M.parse_eml_fixed (read_top (ref rest)))
+  | "emlold" :: _raw :: _off :: rest ->
+      show_outcome (M.parse_eml_old (read_top (ref rest)))
   | "rt" :: _enc :: _subj :: _from :: _nto :: _ncc :: _date :: _plain :: _html :: _atts :: _embs
-    :: flags :: msg_ok :: addr_ok :: date_ok :: rest ->
+    :: flags :: rest ->
       (* C10: parse go-mail's own rendering (stdlib view of it in the tree), then the header field
          names of the re-render *)
-      let r = ref rest in
-      let e = read_entity r in
-      let t = { M.t_msg_ok = b01 msg_ok; M.t_addr_ok = b01 addr_ok; M.t_date_ok = b01 date_ok; M.t_ent = e } in
+      let t = read_top (ref rest) in
       let fl i = String.length flags > i && flags.[i] = '1' in
       (match M.parse_and_rerender_fields M.filename_of false t (fl 0) (fl 1) (fl 2) with
        | M.Ok (st, fields) ->
-           show_state st ^ " | " ^
+           show_state st ^ " " ^ show_gen_values st ^ " | " ^
            String.concat "," (List.map (fun f -> String.concat "" (List.map (fun b -> String.make 1 (Char.chr (int_of_n b land 255))) f)) fields)
+       | M.Err -> "err"
+       | M.Panic -> "panic")
+  | "front" :: raw :: from :: date :: lists ->
+      (* C10: the whole parser on the rendered bytes in Gallina (MimeRead + EmlFront + Eml); net/mail's
+         results are handed in: From, Date, and a table value=result for the address-list fields *)
+      let tbl = List.filter_map (fun tok -> match String.index_opt tok '=' with
+          | Some i -> Some (bytes_of_hex (String.sub tok 0 i), read_ares (String.sub tok (i + 1) (String.length tok - i - 1)))
+          | None -> None) lists in
+      let plist v = (match List.find_opt (fun (k, _) -> k = v) tbl with Some (_, r) -> r | None -> M.AErr) in
+      (match M.eml_parse (fun _ -> read_ares from) plist (fun _ -> read_dres date) (bytes_of_hex raw) with
+       | M.Ok st -> show_state st ^ " " ^ show_gen_values st
        | M.Err -> "err"
        | M.Panic -> "panic")
   | ["fname"; name] ->
